@@ -3,6 +3,7 @@ import RV.C16.LemXml
 import RV.C16.LemCsv
 import RV.C16.LemLazy
 import RV.C16.LemMulti
+import RV.C16.LemTextJson
 /-
   C16 — helper lemmas, split by format:
     LemJson    binding dicts vs aligned rows, `parseJsonTerm ∘ termToJSON`
@@ -14,5 +15,6 @@ import RV.C16.LemMulti
     LemTsvDoc  header, lines, rows, document
     LemCsv     CSV fields
     LemLazy    the lazily evaluated Result: materialised ++ pending is invariant
+    LemTextJson  (round g) JSON string tokens: `scanstring` undoes every RFC 8259 spelling
     LemMulti   several live iterators over one Result: the same invariant; what the generator-reading iterators hand out
 -/
